@@ -28,6 +28,7 @@ LEVEL_TEXT = (
 )
 LEVEL_NOTE = "Trusts R-SCAN's directory walk (os/pathlib) and the raw networkx graph; x.py beside x/, dotted directory names and a directory named like the root are not generated."
 LEVEL_TEXT += ' Scans with several excluded sibling directories below one parent are included.'
+LEVEL_TEXT += ' Trees may contain a package named like the root directory (scanned as module_path). Extra shards scan random projects (a quarter of them wide and deep) under independently drawn options - file exclusions, level limit, kept externals with external exclusions, module_path below the root, module-object entry point - judged by the same deciding steps. Name pools include unusual legal identifiers (non-ASCII, combining marks, U+00B7, case / zero-padding twins, py*/init* names).'
 RULE = (
     "an evaluation = one scan (tree x module_path x entry point) judged by the monitor; non-trivial = module_path differs from root_path "
     "or the tree has prefix-sibling names or >= 3 directory levels; distinct = distinct (tree digest, module_path, entry point)"
